@@ -4,6 +4,7 @@ import (
 	"context"
 	"fmt"
 	"net/http/httptest"
+	"net/url"
 	"strings"
 	"testing"
 
@@ -23,6 +24,18 @@ func (c *execCtx) Finalize(rule.Backend) error { return c.PipelineError() }
 
 func newExecCtx(method, path string, hdr map[string]string) *execCtx {
 	req := httptest.NewRequest(method, "http://host.test"+path, nil)
+	for k, v := range hdr {
+		req.Header.Set(k, v)
+	}
+	req = req.WithContext(zerolog.Nop().WithContext(context.Background()))
+	return &execCtx{requestcontext.New(req)}
+}
+
+// newExecCtxURL builds a context whose request carries host and (raw) path verbatim.
+func newExecCtxURL(method, host string, u *url.URL, hdr map[string]string) *execCtx {
+	req := httptest.NewRequest(method, "http://placeholder.test/", nil)
+	req.URL.Path, req.URL.RawPath, req.URL.RawQuery = u.Path, u.RawPath, u.RawQuery
+	req.URL.Host, req.Host = host, host
 	for k, v := range hdr {
 		req.Header.Set(k, v)
 	}
